@@ -30,6 +30,8 @@ import RTV.Drv.NumExtract
 import RTV.Drv.NumBig
 import RTV.Drv.NumOrd
 import RTV.Drv.DateFront
+import RTV.Drv.DateFrontCul
+import RTV.Drv.TimeFront
 /-! Model driver: one operation per input line (tab-separated), one answer line per operation.
 Run compiled (`.lake/build/bin/rtvdriver`) or with `lake env lean --run Driver.lean`. -/
 open RTV.Drv
@@ -69,6 +71,8 @@ def dispatch (line : String) : String :=
       <|> dispatchNumBig op args
       <|> dispatchNumOrd op args
       <|> dispatchDateFront op args
+      <|> dispatchDateFrontCul op args
+      <|> dispatchTimeFront op args
       -- <|> dispatchOther op args   (one alternative per layer)
       ).getD "bad-op"
   | _ => "bad-op"
